@@ -240,3 +240,99 @@ Proof.
       * apply app_eq_nil in Ea. destruct Ea as [Ea _]. rewrite Ea in Hin. contradiction.
       * rewrite <- Ea. apply in_or_app. left. exact Hin.
 Qed.
+
+(* ---- the positive side: the loader adds no error of its own.  When every import names a local package of the
+   bundle, the import relation is acyclic (a rank that decreases along imports) and every file passes its front
+   end, loading returns the empty error list.  Together with the two refutation witnesses above: the loader's own
+   errors are exactly "an import names no package" and "the imports form a cycle". *)
+Definition acyclic_closed (b : bundle) (rank : pkgid -> nat) : Prop :=
+  forall n files, find_pkg n b = Some files ->
+    forall d, In d (flat_map sf_imports files) -> d <> n -> find_pkg d b <> None /\ (rank d < rank n)%nat.
+
+Lemma dedupe_pkgs_In x l : In x (dedupe_pkgs l) -> In x l.
+Proof.
+  induction l as [|y r IH]; cbn [dedupe_pkgs]; [auto|].
+  destruct (mem_pkg y r); [intro H; right; apply IH, H|intros [->|H]; [left; reflexivity|right; apply IH, H]].
+Qed.
+
+Section LoadSucceeds.
+  Variable fres : sfile -> fileres.
+  Variable b : bundle.
+  Variable rank : pkgid -> nat.
+  Hypothesis Hac : acyclic_closed b rank.
+  Hypothesis Hfine : forall f, In f (all_files b) -> fres f = FRFine.
+
+  Lemma first_early_all_fine files : incl files (all_files b) -> first_early fres files = None.
+  Proof.
+    induction files as [|f r IH]; intro Hi; cbn [first_early]; [reflexivity|].
+    rewrite (Hfine f (Hi f (or_introl eq_refl))). apply IH. intros x Hx. apply Hi. right. exact Hx.
+  Qed.
+  Lemma first_late_all_fine files : incl files (all_files b) -> first_late fres files = Ok [].
+  Proof.
+    induction files as [|f r IH]; intro Hi; cbn [first_late]; [reflexivity|].
+    rewrite (Hfine f (Hi f (or_introl eq_refl))). apply IH. intros x Hx. apply Hi. right. exact Hx.
+  Qed.
+
+  Theorem load_succeeds : forall fuel chain name,
+    NoDup chain -> incl chain (map fst b) -> (length b < fuel + length chain)%nat ->
+    find_pkg name b <> None -> (forall c, In c chain -> (rank name < rank c)%nat) ->
+    load fres fuel b chain name = Ok [].
+  Proof.
+    induction fuel as [|f IH]; intros chain name Hnd Hinc Hlen Hf Hr.
+    - exfalso. pose proof (NoDup_incl_length Hnd Hinc) as H. rewrite map_length in H. cbn in Hlen. lia.
+    - cbn [load]. destruct (mem_pkg name chain) eqn:Em.
+      { apply mem_pkg_In in Em. specialize (Hr name Em). lia. }
+      destruct (find_pkg name b) as [files|] eqn:Ef; [|contradiction].
+      destruct (find_pkg_In _ _ _ Ef) as [Hin Hfiles].
+      rewrite (first_early_all_fine files Hfiles).
+      assert (Hnd' : NoDup (name :: chain)).
+      { constructor; [|exact Hnd]. intro H. apply mem_pkg_In in H. congruence. }
+      assert (Hinc' : incl (name :: chain) (map fst b)).
+      { intros x [<-|Hx]; [exact Hin|apply Hinc; exact Hx]. }
+      assert (Hlen' : (length b < f + length (name :: chain))%nat) by (cbn; lia).
+      assert (Hdeps : forall d, In d (filter (fun d => negb (N.eqb d name)) (dedupe_pkgs (flat_map sf_imports files))) ->
+                find_pkg d b <> None /\ (rank d < rank name)%nat).
+      { intros d Hd. apply filter_In in Hd. destruct Hd as [Hd Hne]. apply dedupe_pkgs_In in Hd.
+        apply negb_true_iff, N.eqb_neq in Hne. exact (Hac name files Ef d Hd Hne). }
+      set (deps := filter _ _) in *. clearbody deps.
+      induction deps as [|d r IHd].
+      + apply first_late_all_fine. exact Hfiles.
+      + destruct (Hdeps d (or_introl eq_refl)) as [Hfd Hrd].
+        rewrite (IH (name :: chain) d Hnd' Hinc' Hlen' Hfd).
+        * apply IHd. intros x Hx. apply Hdeps. right. exact Hx.
+        * intros c [<-|Hc]; [exact Hrd|specialize (Hr c Hc); lia].
+  Qed.
+
+  Corollary load_package_succeeds name : find_pkg name b <> None -> load_package fres b name = Ok [].
+  Proof.
+    intro Hf. unfold load_package. apply load_succeeds; [constructor|intros x []|cbn; lia|exact Hf|intros c []].
+  Qed.
+End LoadSucceeds.
+
+(* with the front end of CmpbFront.v: a package of files the front end converts, with local acyclic imports, loads *)
+Theorem package_of_accepted_files_loads : forall walk b rank name,
+  acyclic_closed b rank ->
+  (forall f, In f (all_files b) -> exists v lf, front_end walk true (sf_input f) = Ok (FEConverted v lf)) ->
+  find_pkg name b <> None ->
+  load_package (front_fres walk) b name = Ok [].
+Proof.
+  intros walk b rank name Hac Hfe Hf. apply (load_package_succeeds (front_fres walk) b rank Hac); [|exact Hf].
+  intros f Hin. destruct (Hfe f Hin) as [v [lf E]]. unfold front_fres. rewrite E. reflexivity.
+Qed.
+
+(* non-vacuity: package 1 imports package 2 (and names itself, which resolveDependencies deletes); every file converts
+   under the demo walker; the hypotheses hold and the package loads *)
+Definition ok_bundle : bundle := [(1%N, [mkSF 10%N fine_text [2%N; 1%N]; mkSF 11%N fine_text []]); (2%N, [mkSF 20%N fine_text []])].
+Lemma ok_bundle_acyclic : acyclic_closed ok_bundle (fun n => if N.eqb n 1 then 1%nat else 0%nat).
+Proof.
+  intros n files Hf d Hd Hne. cbn [ok_bundle find_pkg] in Hf.
+  destruct (N.eqb n 1) eqn:E1.
+  - apply N.eqb_eq in E1. subst n. inversion Hf; subst files. cbn in Hd.
+    destruct Hd as [<-|[<-|[]]]; [|congruence]. split; [cbn; discriminate|cbn; auto].
+  - destruct (N.eqb n 2) eqn:E2; [|discriminate]. inversion Hf; subst files. destruct Hd.
+Qed.
+Lemma ok_bundle_loads : load_package (front_fres demo_walk) ok_bundle 1%N = Ok [].
+Proof.
+  apply (package_of_accepted_files_loads demo_walk ok_bundle _ 1%N ok_bundle_acyclic); [|cbn; discriminate].
+  intros f Hin. cbn in Hin. destruct Hin as [<-|[<-|[<-|[]]]]; eexists; eexists; vm_compute; reflexivity.
+Qed.
